@@ -5,7 +5,8 @@
 // argument choices (thorough: additionally depth 4 over a core alphabet), plus long single-letter words.
 // Every word is executed in child processes that differ in environment variables, working directory,
 // argv, stdin content, TZ and start time; inside each child on both engines and in two simultaneously
-// live instances per engine. Oracle: the byte-exact trace (errno + guest-memory window after every call)
+// live instances per engine (one calling WASI from a clean stack, one after a guest "stack dirtier"
+// through frameless forwarders, see alphabet.go). Oracle: the byte-exact trace (errno + guest-memory window after every call)
 // equals an independent model of the documented defaults (model.go); children additionally emit one
 // digest per word, which the parent compares with the model's digest and across children.
 //
@@ -742,10 +743,10 @@ func parentMain(run *fw.Run, self, tmp string) func() {
 	return func() {
 		run.Finish(fw.Coverage{
 			Evaluations: evaluations, DistinctNontriv: words,
-			Rule:    "evaluation = one fresh default-configured instance executing one word (every word runs in 3 host environments x 2 engines x 2 simultaneously live instances); distinct = canonical words of maximal length (letters after proc_exit are not spelled out; every proper prefix is covered by the per-step trace of its extensions); all are non-trivial (each performs >=1 WASI call whose errno and memory window are compared); distinct_traces counts how many of them are observationally different",
+			Rule:    "evaluation = one fresh default-configured instance executing one word (every word runs in 3 host environments x 2 engines x 2 simultaneously live instances: A calls the export wrappers from a clean stack, B runs a guest stack dirtier before every call and reaches the import through frameless forwarders); distinct = canonical words of maximal length (letters after proc_exit are not spelled out; every proper prefix is covered by the per-step trace of its extensions); all are non-trivial (each performs >=1 WASI call whose errno and memory window are compared); distinct_traces counts how many of them are observationally different",
 			Samples: samples.List(), Exhaustive: true, Outcomes: om,
 			Bounds: map[string]any{"wasi_functions": len(wasiFns), "letters": len(sp.alpha), "families": fams, "indices": sp.total,
-				"window_bytes": winSize, "environments": len(cs), "engines": 2, "instances_per_engine": 2},
+				"window_bytes": winSize, "environments": len(cs), "engines": 2, "instances_per_engine": 2, "call_shapes": len(shapeSuffix)},
 			Extra: map[string]any{"environments": perEnv, "wasi_calls_traced": steps, "distinct_traces": distinct,
 				"digests_compared": common * int64(len(cs)), "digests_differing_from_model": vsModel, "digests_differing_across_processes": cross,
 				"model_words": modelWords.Load()},
